@@ -16,6 +16,7 @@ package plan
 
 import (
 	"fmt"
+	"strings"
 
 	"github.com/XiaoMi/Gaea/mysql"
 	"github.com/XiaoMi/Gaea/parser/ast"
@@ -207,6 +208,10 @@ func HandleSelectStmt(p *SelectPlan, stmt *ast.SelectStmt) error {
 			p.columnCount = len(stmt.Fields.Fields)
 		}
 
+		if err := checkDistinctAggregates(stmt); err != nil {
+			return err
+		}
+
 		if err := handleHaving(p, stmt); err != nil {
 			return fmt.Errorf("handle Having error: %v", err)
 		}
@@ -232,6 +237,26 @@ func HandleSelectStmt(p *SelectPlan, stmt *ast.SelectStmt) error {
 
 	p.sqls = sqls
 
+	return nil
+}
+
+// COUNT(DISTINCT x) and SUM(DISTINCT x) of the whole table cannot be computed from
+// the per-shard values (a value present on two shards would be counted twice),
+// so a statement that has to be merged from several shards is rejected.
+func checkDistinctAggregates(stmt *ast.SelectStmt) error {
+	if stmt.Fields == nil {
+		return nil
+	}
+	for _, f := range stmt.Fields.Fields {
+		agg, ok := f.Expr.(*ast.AggregateFuncExpr)
+		if !ok || !agg.Distinct {
+			continue
+		}
+		switch strings.ToLower(agg.F) {
+		case "count", "sum":
+			return fmt.Errorf("%s(DISTINCT) is not supported across shards", strings.ToUpper(agg.F))
+		}
+	}
 	return nil
 }
 
